@@ -61,3 +61,10 @@ from proofs import reg_C06 as _r6
 for _g in _r6.GROUPS:
     if _g['name'] in ('has_lbrr_safe', 'has_lbrr_safe_all'):
         _h = _copy.deepcopy(_g); _h.pop('prop', None); GROUPS.append(_h)
+
+for _r, _c, _k, _tier in [(2, 3, 2, 'quick'), (3, 2, 5, 'quick'), (2, 3, 1, 'quick')] + [(r, c, k, 'thorough') for (r, c) in ((2, 3), (3, 2)) for k in range(6) if (r, c, k) not in ((2, 3, 2), (3, 2, 5), (2, 3, 1))]:
+  GROUPS.append(dict(name='proj_matrix_kernels_%dx%d_k%d' % (_r, _c, _k), tier=_tier, defines=['-U__SSE__', '-DVERIF_R=%d' % _r, '-DVERIF_C=%d' % _c, '-DVERIF_WHICH=%d' % _k], cls='B', tu='C01_proj_matrix.c', entry='h_proj_matrix', dfcc=False, canary='real', expect_canaries=1, unwind=10, timeout=1500, mem_gb=12,
+      functions=['mapping_matrix_multiply_channel_out_float', 'mapping_matrix_multiply_channel_out_short', 'mapping_matrix_multiply_channel_out_int24',
+                 'mapping_matrix_multiply_channel_in_float', 'mapping_matrix_multiply_channel_in_short', 'mapping_matrix_multiply_channel_in_int24', 'mapping_matrix_get_data'],
+      bounds='%d x %d matrix (rows x columns, all in use), kernel %d of 6 (0-2 output float/16/24 bit, 3-5 input), 2 samples per channel, exact-size buffers, samples within +-4.0 / 24 bits' % (_r, _c, _k),
+      what='projection matrix kernels write only the caller\'s frame_size x channels samples and read only their inputs, for non-square shapes too; 24-bit output accumulates round(coefficient x sample / 2^15)'))
